@@ -15,7 +15,9 @@ UNRELATED = {
     "README.md": "# Project\n\nSome text.\n", "README.rst": "Project\n=======\n\ntext\n",
     "setup.py": "import setuptools\nsetuptools.setup(name='x', version='2020.1001a0')\n",
     "setup.cfg": "[metadata]\nname = x\n\n[flake8]\nmax-line-length = 100\n",
-    "pyproject.toml": "[build-system]\nrequires = [\"setuptools\"]\n\n[tool.black]\nline-length = 100\n",
+    # (with PEP 735 dependency groups: an array that holds strings and a table)
+    "pyproject.toml": "[build-system]\nrequires = [\"setuptools\"]\n\n[dependency-groups]\nbase = [\"attrs\"]\n"
+                      "test = [\"pytest\", {include-group = \"base\"}]\n\n[tool.black]\nline-length = 100\n",
     "bumpver.toml": "[other]\nkey = \"value\"\n", ".bumpver.toml": "# just a comment\n", "pycalver.toml": "[misc]\nx = 1\n",
 }
 TOOLTABLE = {
